@@ -62,14 +62,16 @@ def _in_stable_order(arg: Any) -> Any:
     """
     if not isinstance(arg, (set, frozenset)):
         return arg
-    return sorted(
-        arg,
-        key=lambda v: (
-            v.get_sql(DEFAULT_SQL_CONTEXT.copy(with_namespace=True))
-            if isinstance(v, (Term, Interval))
-            else repr(v)
-        ),
-    )
+    return sorted(arg, key=_stable_order_key)
+
+
+def _stable_order_key(value: Any) -> str:
+    if isinstance(value, (Term, Interval)):
+        return value.get_sql(DEFAULT_SQL_CONTEXT.copy(with_namespace=True))
+    if isinstance(value, (list, tuple)):
+        # (the repr of a tuple that holds terms would contain their addresses)
+        return "(%s)" % ",".join(_stable_order_key(v) for v in value)
+    return repr(value)
 
 
 class Term(Node):
